@@ -80,7 +80,7 @@ def option_matrix(tier: str, rng) -> typing.List[typing.Tuple[str, dict]]:
 
 
 SIZES = {'quick': dict(n_types=26, per_type=40, n_values=10, rounds=1),
-         'thorough': dict(n_types=32, per_type=110, n_values=24, rounds=4)}
+         'thorough': dict(n_types=32, per_type=110, n_values=24, rounds=7)}
 
 
 def family(tgt: proto.Target) -> str:
@@ -303,6 +303,9 @@ def evaluate(ctx: Ctx, cases, stats: dict, flags: typing.Optional[set] = None) -
     ser_idx = [i for i, c in enumerate(cases) if c.op == 'ser']
     m_py = dict(zip(ser_idx, m.run(['p' + cases[i].req for i in ser_idx])))
     tie_free = dict(zip(ser_idx, [r == 'ok 1' for r in m.run([m.tok_req('tief', cases[i].tid, cases[i].value) for i in ser_idx])]))
+    for i, r in zip(ser_idx, m.run([m.tok_req('msk', cases[i].tid, cases[i].value) for i in ser_idx])):
+        rr = r.split()
+        ctx._mask.setdefault(cases[i].req, rr[1] if rr[:1] == ['ok'] and len(rr) > 1 else '')
     for i, c in enumerate(cases):
         c.expected = m_c[i]
         for tgk in c.tags:
